@@ -673,8 +673,19 @@ class ResolveVectorNotationTransformer(Transformer):
 
         # --- Step 3: Identify range-indexed dimensions ---
 
+        # Whole-array references on the RHS (no subscripts, known shape) take
+        # part in the iteration space like ``(:)``
+        rhs = stmt.rhs
+        whole_arrays = {
+            var: var.clone(dimensions=tuple(sym.RangeIndex((None, None)) for _ in var.shape))
+            for var in FindVariables(unique=False).visit(rhs)
+            if isinstance(var, sym.Array) and not var.dimensions and var.shape
+        }
+        if whole_arrays:
+            rhs = SubstituteExpressions(whole_arrays).visit(rhs)
+
         # RHS arrays that have at least one RangeIndex dimension
-        rhs_vars = FindVariables(unique=False).visit(stmt.rhs)
+        rhs_vars = FindVariables(unique=False).visit(rhs)
         rhs_arrays = [
             var for var in rhs_vars
             if isinstance(var, sym.Array)
@@ -789,7 +800,7 @@ class ResolveVectorNotationTransformer(Transformer):
         rhs_substitution = dict(zip(rhs_arrays, new_rhs_array_list))
         stmt._update(
             lhs=new_lhs_arr,
-            rhs=SubstituteExpressions(rhs_substitution).visit(stmt.rhs)
+            rhs=SubstituteExpressions(rhs_substitution).visit(rhs)
         )
 
         # Record all newly created loop index variables for declaration
